@@ -15,6 +15,7 @@ structure LeafK (I : State → Prop) : Prop where
 
 /-- the writers the synchronous watcher functions use (no suspension, no spawn) -/
 structure LeafW (I : State → Prop) : Prop extends LeafK I where
+  emitEv : ∀ w t p x, Pres I (emitEv w t p x)
   popPid : ∀ u p, Pres I (popPid u p)
   bumpHook : ∀ u h i, Pres I (bumpHook u h i)
   setObjStopping : ∀ p b, Pres I (setObjStopping p b)
@@ -23,7 +24,6 @@ structure LeafW (I : State → Prop) : Prop extends LeafK I where
 
 /-- writers that touch neither the exclusive slot, nor top-level futures, nor the directory -/
 structure Leaf (I : State → Prop) : Prop extends LeafW I where
-  emitRep : ∀ c i a b d, Pres I (emitRep c i a b d)
   setStatus : ∀ u st, Pres I (setStatus u st)
   trySetNp : ∀ u n, Pres I (trySetNp u n)
   spawnAdopt : ∀ u w, Pres I (spawnAdopt u w)
@@ -47,25 +47,29 @@ structure Leaf (I : State → Prop) : Prop extends LeafW I where
   enqueueCallback : ∀ n, Pres I (enqueue (.callback n))
 
 /-- composite operations around the exclusive slot and top-level futures -/
-structure Spec (I : State → Prop) : Prop extends Leaf I where
+structure SpecCore (I : State → Prop) : Prop extends Leaf I where
   deliverTop : ∀ tid v, Pres I (deliverTop tid v)
   newTopNR : ∀ cbs, TopCb.release ∉ cbs → Pres I (newTop cbs)
   addDone : ∀ tid cb, cb ≠ TopCb.release → Pres I (addDoneCallback tid cb)
   syncCo : (∀ n t, Pres I (exec n t)) → ∀ name c, Pres I (syncCoroutine name c [])
   syncSetOpt : ∀ u key val len, Pres I (syncPlain "watcher_set_opt" (setOptBody u key val len))
   syncAdd : ∀ props, Pres I (syncPlain "arbiter_add_watcher" (addCore props))
+
+/-- … plus what only the reply path and the event loop need -/
+structure Spec (I : State → Prop) : Prop extends SpecCore I where
+  emitRep : ∀ c i a b d, Pres I (emitRep c i a b d)
   settleStep : (∀ n t, Pres I (exec n t)) → Pres I sigQuit → Pres I settleStep
 
 attribute [aesop safe apply (rule_sets := [Pres])] Pres.pure Pres.getS Pres.getK Pres.getA Pres.getW Pres.getO Pres.nowMs
 attribute [aesop safe apply (rule_sets := [Pres])] Pres.bind Pres.ite Pres.for_in
 attribute [aesop safe apply (rule_sets := [Pres])] LeafK.emit LeafK.setK Leaf.setStatus Leaf.trySetNp Leaf.spawnAdopt LeafW.popPid
-  LeafW.bumpHook Leaf.setWOpt LeafW.setObjStopping LeafW.setRc LeafW.markBlocked Leaf.emitRep Leaf.freshId Leaf.pushFrame
+  LeafW.bumpHook Leaf.setWOpt LeafW.setObjStopping LeafW.setRc LeafW.markBlocked LeafW.emitEv Leaf.freshId Leaf.pushFrame
   Leaf.removeFrame Leaf.setFrameK Leaf.armFrame Leaf.pushSleeper Leaf.armTop Leaf.setClosed Leaf.setStopping
   Leaf.setRestarting Leaf.setLoopStop Leaf.clearDone Leaf.unregister Leaf.registerNew Leaf.fireSleeper
   Leaf.enqueueResume Leaf.enqueueCallback
-attribute [aesop safe apply (rule_sets := [Pres])] Spec.deliverTop Spec.syncSetOpt Spec.syncAdd
+attribute [aesop safe apply (rule_sets := [Pres])] SpecCore.deliverTop SpecCore.syncSetOpt SpecCore.syncAdd
 
-attribute [aesop safe apply (rule_sets := [Pres])] LeafW.toLeafK Leaf.toLeafW
+attribute [aesop safe apply (rule_sets := [Pres])] LeafW.toLeafK Leaf.toLeafW SpecCore.toLeaf Spec.toSpecCore
 
 macro "pres" : tactic => `(tactic| aesop (rule_sets := [Pres]) (config := { terminal := true, useDefaultSimpSet := false, useSimpAll := false, maxRuleApplications := 3000 }))
 
@@ -161,9 +165,12 @@ theorem newFrame_pres (L : Leaf I) (k : Kont) (p : Waiter) : Pres I (newFrame k 
 theorem addSleeper_pres (L : Leaf I) (ms : Nat) (w : Waiter) : Pres I (addSleeper ms w) := by
   unfold addSleeper; pres
 @[aesop safe apply (rule_sets := [Pres])]
-theorem sendReply_pres (L : Leaf I) (cid : Option String) (id : JVal) (c : Bool) (a b d : String) :
+theorem sendReply_pres (L : Leaf I) (hrep : ∀ c i a b d, Pres I (emitRep c i a b d))
+    (cid : Option String) (id : JVal) (c : Bool) (a b d : String) :
     Pres I (sendReply cid id c a b d) := by
-  unfold sendReply; pres
+  unfold sendReply
+  aesop (add safe apply hrep) (rule_sets := [Pres])
+    (config := { terminal := true, useDefaultSimpSet := false, useSimpAll := false, maxRuleApplications := 3000 })
 @[aesop safe apply (rule_sets := [Pres])]
 theorem stopController_pres (L : Leaf I) : Pres I stopController := by
   unfold stopController; pres
@@ -174,13 +181,13 @@ theorem multiCollect_pres (L : Leaf I) (rec : Rec) (hrec : ∀ t, Pres I (rec t)
   unfold multiCollect; aesop (add safe apply hrec) (rule_sets := [Pres]) (config := { terminal := true, useDefaultSimpSet := false, useSimpAll := false, maxRuleApplications := 3000 })
 
 @[aesop safe apply (rule_sets := [Pres])]
-theorem deliver_pres (S : Spec I) (rec : Rec) (hrec : ∀ t, Pres I (rec t)) (w : Waiter) (v : Val) :
+theorem deliver_pres (S : SpecCore I) (rec : Rec) (hrec : ∀ t, Pres I (rec t)) (w : Waiter) (v : Val) :
     Pres I (deliver rec w v) := by
   have L := S.toLeaf
   unfold deliver; aesop (add safe apply hrec) (rule_sets := [Pres]) (config := { terminal := true, useDefaultSimpSet := false, useSimpAll := false, maxRuleApplications := 3000 })
 
 @[aesop safe apply (rule_sets := [Pres])]
-theorem await_pres (S : Spec I) (rec : Rec) (hrec : ∀ t, Pres I (rec t)) (c : Call) (k : Kont) (p : Waiter) :
+theorem await_pres (S : SpecCore I) (rec : Rec) (hrec : ∀ t, Pres I (rec t)) (c : Call) (k : Kont) (p : Waiter) :
     Pres I (await rec c k p) := by
   have L := S.toLeaf
   unfold await; aesop (add safe apply hrec) (rule_sets := [Pres]) (config := { terminal := true, useDefaultSimpSet := false, useSimpAll := false, maxRuleApplications := 3000 })
@@ -188,7 +195,7 @@ theorem await_pres (S : Spec I) (rec : Rec) (hrec : ∀ t, Pres I (rec t)) (c : 
 theorem awaitSleep_pres (L : Leaf I) (ms : Nat) (k : Kont) (p : Waiter) : Pres I (awaitSleep ms k p) := by
   unfold awaitSleep; pres
 @[aesop safe apply (rule_sets := [Pres])]
-theorem awaitMulti_pres (S : Spec I) (rec : Rec) (hrec : ∀ t, Pres I (rec t)) (cs : List Call) (k : Kont) (p : Waiter) :
+theorem awaitMulti_pres (S : SpecCore I) (rec : Rec) (hrec : ∀ t, Pres I (rec t)) (cs : List Call) (k : Kont) (p : Waiter) :
     Pres I (awaitMulti rec cs k p) := by
   have L := S.toLeaf
   unfold awaitMulti; aesop (add safe apply hrec) (rule_sets := [Pres]) (config := { terminal := true, useDefaultSimpSet := false, useSimpAll := false, maxRuleApplications := 3000 })
@@ -201,7 +208,7 @@ theorem popStrict_pres (L : Leaf I) (u p : Nat) : Pres I (popStrict u p) := by
 theorem pubBefore_pres (L : Leaf I) (u : Nat) : Pres I (pubBefore u) := by
   unfold pubBefore; pres
 @[aesop safe apply (rule_sets := [Pres])]
-theorem spawnTry_pres (S : Spec I) (rec : Rec) (hrec : ∀ t, Pres I (rec t)) (wuid n : Nat) : Pres I (spawnTry rec wuid n) := by
+theorem spawnTry_pres (S : SpecCore I) (rec : Rec) (hrec : ∀ t, Pres I (rec t)) (wuid n : Nat) : Pres I (spawnTry rec wuid n) := by
   have L := S.toLeaf
   have hnt : Pres I (newTop [TopCb.popProc wuid 0]) → True := fun _ => trivial
   induction n with
@@ -211,138 +218,138 @@ theorem spawnTry_pres (S : Spec I) (rec : Rec) (hrec : ∀ t, Pres I (rec t)) (w
     have hnew : ∀ pid, Pres I (newTop [TopCb.popProc wuid pid]) := fun pid => S.newTopNR _ (by simp)
     aesop (add safe apply ih, safe apply hrec, safe apply hnew) (rule_sets := [Pres]) (config := { terminal := true, useDefaultSimpSet := false, useSimpAll := false, maxRuleApplications := 3000 })
 @[aesop safe apply (rule_sets := [Pres])]
-theorem killFinish_pres (S : Spec I) (rec : Rec) (hrec : ∀ t, Pres I (rec t)) (wuid pid : Nat) (esc : Bool) (wt : Waiter) : Pres I (killFinish rec wuid pid esc wt) := by
+theorem killFinish_pres (S : SpecCore I) (rec : Rec) (hrec : ∀ t, Pres I (rec t)) (wuid pid : Nat) (esc : Bool) (wt : Waiter) : Pres I (killFinish rec wuid pid esc wt) := by
   have L := S.toLeaf
   unfold killFinish; aesop (add safe apply hrec) (rule_sets := [Pres]) (config := { terminal := true, useDefaultSimpSet := false, useSimpAll := false, maxRuleApplications := 3000 })
 @[aesop safe apply (rule_sets := [Pres])]
-theorem killLoop_pres (S : Spec I) (rec : Rec) (hrec : ∀ t, Pres I (rec t)) (wuid pid sig i polls : Nat) (wt : Waiter) : Pres I (killLoop rec wuid pid sig i polls wt) := by
+theorem killLoop_pres (S : SpecCore I) (rec : Rec) (hrec : ∀ t, Pres I (rec t)) (wuid pid sig i polls : Nat) (wt : Waiter) : Pres I (killLoop rec wuid pid sig i polls wt) := by
   have L := S.toLeaf
   unfold killLoop; aesop (add safe apply hrec) (rule_sets := [Pres]) (config := { terminal := true, useDefaultSimpSet := false, useSimpAll := false, maxRuleApplications := 3000 })
 @[aesop safe apply (rule_sets := [Pres])]
-theorem killProcess_pres (S : Spec I) (rec : Rec) (hrec : ∀ t, Pres I (rec t)) (wuid pid : Nat) (sig gt : Option Nat) (wt : Waiter) : Pres I (killProcess rec wuid pid sig gt wt) := by
+theorem killProcess_pres (S : SpecCore I) (rec : Rec) (hrec : ∀ t, Pres I (rec t)) (wuid pid : Nat) (sig gt : Option Nat) (wt : Waiter) : Pres I (killProcess rec wuid pid sig gt wt) := by
   have L := S.toLeaf
   unfold killProcess; aesop (add safe apply hrec) (rule_sets := [Pres]) (config := { terminal := true, useDefaultSimpSet := false, useSimpAll := false, maxRuleApplications := 3000 })
 @[aesop safe apply (rule_sets := [Pres])]
-theorem killProcesses_pres (S : Spec I) (rec : Rec) (hrec : ∀ t, Pres I (rec t)) (wuid : Nat) (sig gt : Option Nat) (wt : Waiter) : Pres I (killProcesses rec wuid sig gt wt) := by
+theorem killProcesses_pres (S : SpecCore I) (rec : Rec) (hrec : ∀ t, Pres I (rec t)) (wuid : Nat) (sig gt : Option Nat) (wt : Waiter) : Pres I (killProcesses rec wuid sig gt wt) := by
   have L := S.toLeaf
   unfold killProcesses; aesop (add safe apply hrec) (rule_sets := [Pres]) (config := { terminal := true, useDefaultSimpSet := false, useSimpAll := false, maxRuleApplications := 3000 })
 @[aesop safe apply (rule_sets := [Pres])]
-theorem stopW_pres (S : Spec I) (rec : Rec) (hrec : ∀ t, Pres I (rec t)) (wuid : Nat) (close : Bool) (wt : Waiter) : Pres I (stopW rec wuid close wt) := by
+theorem stopW_pres (S : SpecCore I) (rec : Rec) (hrec : ∀ t, Pres I (rec t)) (wuid : Nat) (close : Bool) (wt : Waiter) : Pres I (stopW rec wuid close wt) := by
   have L := S.toLeaf
   unfold stopW; aesop (add safe apply hrec) (rule_sets := [Pres]) (config := { terminal := true, useDefaultSimpSet := false, useSimpAll := false, maxRuleApplications := 3000 })
 @[aesop safe apply (rule_sets := [Pres])]
-theorem stopAfterKill_pres (S : Spec I) (rec : Rec) (hrec : ∀ t, Pres I (rec t)) (wuid : Nat) (close : Bool) (wt : Waiter) : Pres I (stopAfterKill rec wuid close wt) := by
+theorem stopAfterKill_pres (S : SpecCore I) (rec : Rec) (hrec : ∀ t, Pres I (rec t)) (wuid : Nat) (close : Bool) (wt : Waiter) : Pres I (stopAfterKill rec wuid close wt) := by
   have L := S.toLeaf
   unfold stopAfterKill; aesop (add safe apply hrec) (rule_sets := [Pres]) (config := { terminal := true, useDefaultSimpSet := false, useSimpAll := false, maxRuleApplications := 3000 })
 @[aesop safe apply (rule_sets := [Pres])]
-theorem spawnProcess_pres (S : Spec I) (rec : Rec) (hrec : ∀ t, Pres I (rec t)) (wuid : Nat) : Pres I (spawnProcess rec wuid) := by
+theorem spawnProcess_pres (S : SpecCore I) (rec : Rec) (hrec : ∀ t, Pres I (rec t)) (wuid : Nat) : Pres I (spawnProcess rec wuid) := by
   have L := S.toLeaf
   unfold spawnProcess; aesop (add safe apply hrec) (rule_sets := [Pres]) (config := { terminal := true, useDefaultSimpSet := false, useSimpAll := false, maxRuleApplications := 3000 })
 @[aesop safe apply (rule_sets := [Pres])]
-theorem spawnLoop_pres (S : Spec I) (rec : Rec) (hrec : ∀ t, Pres I (rec t)) (wuid rem : Nat) (wt : Waiter) : Pres I (spawnLoop rec wuid rem wt) := by
+theorem spawnLoop_pres (S : SpecCore I) (rec : Rec) (hrec : ∀ t, Pres I (rec t)) (wuid rem : Nat) (wt : Waiter) : Pres I (spawnLoop rec wuid rem wt) := by
   have L := S.toLeaf
   unfold spawnLoop; aesop (add safe apply hrec) (rule_sets := [Pres]) (config := { terminal := true, useDefaultSimpSet := false, useSimpAll := false, maxRuleApplications := 3000 })
 @[aesop safe apply (rule_sets := [Pres])]
-theorem spawnProcesses_pres (S : Spec I) (rec : Rec) (hrec : ∀ t, Pres I (rec t)) (wuid : Nat) (wt : Waiter) : Pres I (spawnProcesses rec wuid wt) := by
+theorem spawnProcesses_pres (S : SpecCore I) (rec : Rec) (hrec : ∀ t, Pres I (rec t)) (wuid : Nat) (wt : Waiter) : Pres I (spawnProcesses rec wuid wt) := by
   have L := S.toLeaf
   unfold spawnProcesses; aesop (add safe apply hrec) (rule_sets := [Pres]) (config := { terminal := true, useDefaultSimpSet := false, useSimpAll := false, maxRuleApplications := 3000 })
 @[aesop safe apply (rule_sets := [Pres])]
-theorem popKilled_pres (S : Spec I) (rec : Rec) (hrec : ∀ t, Pres I (rec t)) (wuid : Nat) (tk : List Nat) (v : Val) (wt : Waiter) : Pres I (popKilled rec wuid tk v wt) := by
+theorem popKilled_pres (S : SpecCore I) (rec : Rec) (hrec : ∀ t, Pres I (rec t)) (wuid : Nat) (tk : List Nat) (v : Val) (wt : Waiter) : Pres I (popKilled rec wuid tk v wt) := by
   have L := S.toLeaf
   unfold popKilled; aesop (add safe apply hrec) (rule_sets := [Pres]) (config := { terminal := true, useDefaultSimpSet := false, useSimpAll := false, maxRuleApplications := 3000 })
 @[aesop safe apply (rule_sets := [Pres])]
-theorem manageTail_pres (S : Spec I) (rec : Rec) (hrec : ∀ t, Pres I (rec t)) (wuid : Nat) (wt : Waiter) : Pres I (manageTail rec wuid wt) := by
+theorem manageTail_pres (S : SpecCore I) (rec : Rec) (hrec : ∀ t, Pres I (rec t)) (wuid : Nat) (wt : Waiter) : Pres I (manageTail rec wuid wt) := by
   have L := S.toLeaf
   unfold manageTail; aesop (add safe apply hrec) (rule_sets := [Pres]) (config := { terminal := true, useDefaultSimpSet := false, useSimpAll := false, maxRuleApplications := 3000 })
 @[aesop safe apply (rule_sets := [Pres])]
-theorem manageAfterExpire_pres (S : Spec I) (rec : Rec) (hrec : ∀ t, Pres I (rec t)) (wuid : Nat) (wt : Waiter) : Pres I (manageAfterExpire rec wuid wt) := by
+theorem manageAfterExpire_pres (S : SpecCore I) (rec : Rec) (hrec : ∀ t, Pres I (rec t)) (wuid : Nat) (wt : Waiter) : Pres I (manageAfterExpire rec wuid wt) := by
   have L := S.toLeaf
   unfold manageAfterExpire; aesop (add safe apply hrec) (rule_sets := [Pres]) (config := { terminal := true, useDefaultSimpSet := false, useSimpAll := false, maxRuleApplications := 3000 })
 @[aesop safe apply (rule_sets := [Pres])]
-theorem removeExpired_pres (S : Spec I) (rec : Rec) (hrec : ∀ t, Pres I (rec t)) (wuid : Nat) (wt : Waiter) : Pres I (removeExpired rec wuid wt) := by
+theorem removeExpired_pres (S : SpecCore I) (rec : Rec) (hrec : ∀ t, Pres I (rec t)) (wuid : Nat) (wt : Waiter) : Pres I (removeExpired rec wuid wt) := by
   have L := S.toLeaf
   unfold removeExpired; aesop (add safe apply hrec) (rule_sets := [Pres]) (config := { terminal := true, useDefaultSimpSet := false, useSimpAll := false, maxRuleApplications := 3000 })
 @[aesop safe apply (rule_sets := [Pres])]
-theorem manageProcesses_pres (S : Spec I) (rec : Rec) (hrec : ∀ t, Pres I (rec t)) (wuid : Nat) (wt : Waiter) : Pres I (manageProcesses rec wuid wt) := by
+theorem manageProcesses_pres (S : SpecCore I) (rec : Rec) (hrec : ∀ t, Pres I (rec t)) (wuid : Nat) (wt : Waiter) : Pres I (manageProcesses rec wuid wt) := by
   have L := S.toLeaf
   unfold manageProcesses; aesop (add safe apply hrec) (rule_sets := [Pres]) (config := { terminal := true, useDefaultSimpSet := false, useSimpAll := false, maxRuleApplications := 3000 })
 @[aesop safe apply (rule_sets := [Pres])]
-theorem startW_pres (S : Spec I) (rec : Rec) (hrec : ∀ t, Pres I (rec t)) (wuid : Nat) (wt : Waiter) : Pres I (startW rec wuid wt) := by
+theorem startW_pres (S : SpecCore I) (rec : Rec) (hrec : ∀ t, Pres I (rec t)) (wuid : Nat) (wt : Waiter) : Pres I (startW rec wuid wt) := by
   have L := S.toLeaf
   unfold startW; aesop (add safe apply hrec) (rule_sets := [Pres]) (config := { terminal := true, useDefaultSimpSet := false, useSimpAll := false, maxRuleApplications := 3000 })
 @[aesop safe apply (rule_sets := [Pres])]
-theorem startAfterSpawn_pres (S : Spec I) (rec : Rec) (hrec : ∀ t, Pres I (rec t)) (wuid : Nat) (wt : Waiter) : Pres I (startAfterSpawn rec wuid wt) := by
+theorem startAfterSpawn_pres (S : SpecCore I) (rec : Rec) (hrec : ∀ t, Pres I (rec t)) (wuid : Nat) (wt : Waiter) : Pres I (startAfterSpawn rec wuid wt) := by
   have L := S.toLeaf
   unfold startAfterSpawn; aesop (add safe apply hrec) (rule_sets := [Pres]) (config := { terminal := true, useDefaultSimpSet := false, useSimpAll := false, maxRuleApplications := 3000 })
 @[aesop safe apply (rule_sets := [Pres])]
-theorem reloadW_pres (S : Spec I) (rec : Rec) (hrec : ∀ t, Pres I (rec t)) (wuid : Nat) (g sq : Bool) (wt : Waiter) : Pres I (reloadW rec wuid g sq wt) := by
+theorem reloadW_pres (S : SpecCore I) (rec : Rec) (hrec : ∀ t, Pres I (rec t)) (wuid : Nat) (g sq : Bool) (wt : Waiter) : Pres I (reloadW rec wuid g sq wt) := by
   have L := S.toLeaf
   unfold reloadW; aesop (add safe apply hrec) (rule_sets := [Pres]) (config := { terminal := true, useDefaultSimpSet := false, useSimpAll := false, maxRuleApplications := 3000 })
 @[aesop safe apply (rule_sets := [Pres])]
-theorem reloadSeqNext_pres (S : Spec I) (rec : Rec) (hrec : ∀ t, Pres I (rec t)) (wuid : Nat) (rest : List Nat) (wt : Waiter) : Pres I (reloadSeqNext rec wuid rest wt) := by
+theorem reloadSeqNext_pres (S : SpecCore I) (rec : Rec) (hrec : ∀ t, Pres I (rec t)) (wuid : Nat) (rest : List Nat) (wt : Waiter) : Pres I (reloadSeqNext rec wuid rest wt) := by
   have L := S.toLeaf
   unfold reloadSeqNext; aesop (add safe apply hrec) (rule_sets := [Pres]) (config := { terminal := true, useDefaultSimpSet := false, useSimpAll := false, maxRuleApplications := 3000 })
 @[aesop safe apply (rule_sets := [Pres])]
-theorem reloadSeqAfterKill_pres (S : Spec I) (rec : Rec) (hrec : ∀ t, Pres I (rec t)) (wuid pid : Nat) (rest : List Nat) (wt : Waiter) : Pres I (reloadSeqAfterKill rec wuid pid rest wt) := by
+theorem reloadSeqAfterKill_pres (S : SpecCore I) (rec : Rec) (hrec : ∀ t, Pres I (rec t)) (wuid pid : Nat) (rest : List Nat) (wt : Waiter) : Pres I (reloadSeqAfterKill rec wuid pid rest wt) := by
   have L := S.toLeaf
   unfold reloadSeqAfterKill; aesop (add safe apply hrec) (rule_sets := [Pres]) (config := { terminal := true, useDefaultSimpSet := false, useSimpAll := false, maxRuleApplications := 3000 })
 @[aesop safe apply (rule_sets := [Pres])]
-theorem setNumprocesses_pres (S : Spec I) (rec : Rec) (hrec : ∀ t, Pres I (rec t)) (wuid : Nat) (n : Int) (wt : Waiter) : Pres I (setNumprocesses rec wuid n wt) := by
+theorem setNumprocesses_pres (S : SpecCore I) (rec : Rec) (hrec : ∀ t, Pres I (rec t)) (wuid : Nat) (n : Int) (wt : Waiter) : Pres I (setNumprocesses rec wuid n wt) := by
   have L := S.toLeaf
   unfold setNumprocesses; aesop (add safe apply hrec) (rule_sets := [Pres]) (config := { terminal := true, useDefaultSimpSet := false, useSimpAll := false, maxRuleApplications := 3000 })
 @[aesop safe apply (rule_sets := [Pres])]
-theorem doAction_pres (S : Spec I) (rec : Rec) (hrec : ∀ t, Pres I (rec t)) (wuid : Nat) (n : Int) (wt : Waiter) : Pres I (doAction rec wuid n wt) := by
+theorem doAction_pres (S : SpecCore I) (rec : Rec) (hrec : ∀ t, Pres I (rec t)) (wuid : Nat) (n : Int) (wt : Waiter) : Pres I (doAction rec wuid n wt) := by
   have L := S.toLeaf
   unfold doAction; aesop (add safe apply hrec) (rule_sets := [Pres]) (config := { terminal := true, useDefaultSimpSet := false, useSimpAll := false, maxRuleApplications := 3000 })
 @[aesop safe apply (rule_sets := [Pres])]
-theorem pubInfo_pres (S : Spec I) (rec : Rec) (hrec : ∀ t, Pres I (rec t)) (wuid : Nat) (b : List Nat) (wt : Waiter) : Pres I (pubInfo rec wuid b wt) := by
+theorem pubInfo_pres (S : SpecCore I) (rec : Rec) (hrec : ∀ t, Pres I (rec t)) (wuid : Nat) (b : List Nat) (wt : Waiter) : Pres I (pubInfo rec wuid b wt) := by
   have L := S.toLeaf
   unfold pubInfo; aesop (add safe apply hrec) (rule_sets := [Pres]) (config := { terminal := true, useDefaultSimpSet := false, useSimpAll := false, maxRuleApplications := 3000 })
 @[aesop safe apply (rule_sets := [Pres])]
-theorem arbStartNext_pres (S : Spec I) (rec : Rec) (hrec : ∀ t, Pres I (rec t)) (ws : List Nat) (wt : Waiter) : Pres I (arbStartNext rec ws wt) := by
+theorem arbStartNext_pres (S : SpecCore I) (rec : Rec) (hrec : ∀ t, Pres I (rec t)) (ws : List Nat) (wt : Waiter) : Pres I (arbStartNext rec ws wt) := by
   have L := S.toLeaf
   unfold arbStartNext; aesop (add safe apply hrec) (rule_sets := [Pres]) (config := { terminal := true, useDefaultSimpSet := false, useSimpAll := false, maxRuleApplications := 3000 })
 @[aesop safe apply (rule_sets := [Pres])]
-theorem arbStartAfterStart_pres (S : Spec I) (rec : Rec) (hrec : ∀ t, Pres I (rec t)) (ws : List Nat) (wt : Waiter) : Pres I (arbStartAfterStart rec ws wt) := by
+theorem arbStartAfterStart_pres (S : SpecCore I) (rec : Rec) (hrec : ∀ t, Pres I (rec t)) (ws : List Nat) (wt : Waiter) : Pres I (arbStartAfterStart rec ws wt) := by
   have L := S.toLeaf
   unfold arbStartAfterStart; aesop (add safe apply hrec) (rule_sets := [Pres]) (config := { terminal := true, useDefaultSimpSet := false, useSimpAll := false, maxRuleApplications := 3000 })
 @[aesop safe apply (rule_sets := [Pres])]
-theorem arbStopTail_pres (S : Spec I) (rec : Rec) (hrec : ∀ t, Pres I (rec t)) (wt : Waiter) : Pres I (arbStopTail rec wt) := by
+theorem arbStopTail_pres (S : SpecCore I) (rec : Rec) (hrec : ∀ t, Pres I (rec t)) (wt : Waiter) : Pres I (arbStopTail rec wt) := by
   have L := S.toLeaf
   unfold arbStopTail; aesop (add safe apply hrec) (rule_sets := [Pres]) (config := { terminal := true, useDefaultSimpSet := false, useSimpAll := false, maxRuleApplications := 3000 })
 @[aesop safe apply (rule_sets := [Pres])]
-theorem arbStop_pres (S : Spec I) (rec : Rec) (hrec : ∀ t, Pres I (rec t)) (wt : Waiter) : Pres I (arbStop rec wt) := by
+theorem arbStop_pres (S : SpecCore I) (rec : Rec) (hrec : ∀ t, Pres I (rec t)) (wt : Waiter) : Pres I (arbStop rec wt) := by
   have L := S.toLeaf
   unfold arbStop; aesop (add safe apply hrec) (rule_sets := [Pres]) (config := { terminal := true, useDefaultSimpSet := false, useSimpAll := false, maxRuleApplications := 3000 })
 @[aesop safe apply (rule_sets := [Pres])]
-theorem arbRestartInside_pres (S : Spec I) (rec : Rec) (hrec : ∀ t, Pres I (rec t)) (wt : Waiter) : Pres I (arbRestartInside rec wt) := by
+theorem arbRestartInside_pres (S : SpecCore I) (rec : Rec) (hrec : ∀ t, Pres I (rec t)) (wt : Waiter) : Pres I (arbRestartInside rec wt) := by
   have L := S.toLeaf
   unfold arbRestartInside; aesop (add safe apply hrec) (rule_sets := [Pres]) (config := { terminal := true, useDefaultSimpSet := false, useSimpAll := false, maxRuleApplications := 3000 })
 @[aesop safe apply (rule_sets := [Pres])]
-theorem arbReloadNext_pres (S : Spec I) (rec : Rec) (hrec : ∀ t, Pres I (rec t)) (ws : List Nat) (g sq : Bool) (wt : Waiter) : Pres I (arbReloadNext rec ws g sq wt) := by
+theorem arbReloadNext_pres (S : SpecCore I) (rec : Rec) (hrec : ∀ t, Pres I (rec t)) (ws : List Nat) (g sq : Bool) (wt : Waiter) : Pres I (arbReloadNext rec ws g sq wt) := by
   have L := S.toLeaf
   unfold arbReloadNext; aesop (add safe apply hrec) (rule_sets := [Pres]) (config := { terminal := true, useDefaultSimpSet := false, useSimpAll := false, maxRuleApplications := 3000 })
 @[aesop safe apply (rule_sets := [Pres])]
-theorem arbReloadAfter_pres (S : Spec I) (rec : Rec) (hrec : ∀ t, Pres I (rec t)) (ws : List Nat) (g sq : Bool) (wt : Waiter) : Pres I (arbReloadAfter rec ws g sq wt) := by
+theorem arbReloadAfter_pres (S : SpecCore I) (rec : Rec) (hrec : ∀ t, Pres I (rec t)) (ws : List Nat) (g sq : Bool) (wt : Waiter) : Pres I (arbReloadAfter rec ws g sq wt) := by
   have L := S.toLeaf
   unfold arbReloadAfter; aesop (add safe apply hrec) (rule_sets := [Pres]) (config := { terminal := true, useDefaultSimpSet := false, useSimpAll := false, maxRuleApplications := 3000 })
 @[aesop safe apply (rule_sets := [Pres])]
-theorem manageWatchers_pres (S : Spec I) (rec : Rec) (hrec : ∀ t, Pres I (rec t)) (wt : Waiter) : Pres I (manageWatchers rec wt) := by
+theorem manageWatchers_pres (S : SpecCore I) (rec : Rec) (hrec : ∀ t, Pres I (rec t)) (wt : Waiter) : Pres I (manageWatchers rec wt) := by
   have L := S.toLeaf
   unfold manageWatchers; aesop (add safe apply hrec) (rule_sets := [Pres]) (config := { terminal := true, useDefaultSimpSet := false, useSimpAll := false, maxRuleApplications := 3000 })
 @[aesop safe apply (rule_sets := [Pres])]
-theorem rmWatcher_pres (S : Spec I) (rec : Rec) (hrec : ∀ t, Pres I (rec t)) (uid : Nat) (ns : Bool) (wt : Waiter) : Pres I (rmWatcher rec uid ns wt) := by
+theorem rmWatcher_pres (S : SpecCore I) (rec : Rec) (hrec : ∀ t, Pres I (rec t)) (uid : Nat) (ns : Bool) (wt : Waiter) : Pres I (rmWatcher rec uid ns wt) := by
   have L := S.toLeaf
   unfold rmWatcher; aesop (add safe apply hrec) (rule_sets := [Pres]) (config := { terminal := true, useDefaultSimpSet := false, useSimpAll := false, maxRuleApplications := 3000 })
 @[aesop safe apply (rule_sets := [Pres])]
-theorem runCall_pres (S : Spec I) (rec : Rec) (hrec : ∀ t, Pres I (rec t)) (c : Call) (wt : Waiter) : Pres I (runCall rec c wt) := by
+theorem runCall_pres (S : SpecCore I) (rec : Rec) (hrec : ∀ t, Pres I (rec t)) (c : Call) (wt : Waiter) : Pres I (runCall rec c wt) := by
   have L := S.toLeaf
   unfold runCall; aesop (add safe apply hrec) (rule_sets := [Pres]) (config := { terminal := true, useDefaultSimpSet := false, useSimpAll := false, maxRuleApplications := 3000 })
 @[aesop safe apply (rule_sets := [Pres])]
-theorem runResume_pres (S : Spec I) (rec : Rec) (hrec : ∀ t, Pres I (rec t)) (k : Kont) (v : Val) (wt : Waiter) : Pres I (runResume rec k v wt) := by
+theorem runResume_pres (S : SpecCore I) (rec : Rec) (hrec : ∀ t, Pres I (rec t)) (k : Kont) (v : Val) (wt : Waiter) : Pres I (runResume rec k v wt) := by
   have L := S.toLeaf
   unfold runResume; aesop (add safe apply hrec) (rule_sets := [Pres]) (config := { terminal := true, useDefaultSimpSet := false, useSimpAll := false, maxRuleApplications := 3000 })
-theorem exec_pres (S : Spec I) (n : Nat) (t : Task) : Pres I (exec n t) := by
+theorem exec_pres (S : SpecCore I) (n : Nat) (t : Task) : Pres I (exec n t) := by
   have L := S.toLeaf
   induction n generalizing t with
   | zero => unfold exec; pres
@@ -363,53 +370,53 @@ theorem matchWatchers_pres (L : Leaf I) (p : JVal) : Pres I (matchWatchers p) :=
 theorem sortUids_pres (L : Leaf I) (us : List Nat) (r : Bool) : Pres I (sortUids us r) := by
   unfold sortUids; pres
 @[aesop safe apply (rule_sets := [Pres])]
-theorem plainCoroutine_pres (S : Spec I) (c : Call) : Pres I (plainCoroutine c []) := by
+theorem plainCoroutine_pres (S : SpecCore I) (c : Call) : Pres I (plainCoroutine c []) := by
   have L := S.toLeaf
   have h1 : Pres I (newTop ([] : List TopCb)) := S.newTopNR _ (by simp)
   have h2 := exec_pres S
   unfold plainCoroutine
   aesop (add safe apply h1, safe apply h2) (rule_sets := [Pres]) (config := { terminal := true, useDefaultSimpSet := false, useSimpAll := false, maxRuleApplications := 3000 })
 @[aesop safe apply (rule_sets := [Pres])]
-theorem syncCoroutine_pres (S : Spec I) (name : String) (c : Call) : Pres I (syncCoroutine name c []) :=
+theorem syncCoroutine_pres (S : SpecCore I) (name : String) (c : Call) : Pres I (syncCoroutine name c []) :=
   S.syncCo (exec_pres S) name c
 @[aesop safe apply (rule_sets := [Pres])]
-theorem execSSR_pres (S : Spec I) (kind : String) (p : JVal) : Pres I (execSSR kind p) := by
+theorem execSSR_pres (S : SpecCore I) (kind : String) (p : JVal) : Pres I (execSSR kind p) := by
   have L := S.toLeaf
   unfold execSSR; pres
 @[aesop safe apply (rule_sets := [Pres])]
-theorem execIncrDecr_pres (S : Spec I) (sg : Int) (p : JVal) : Pres I (execIncrDecr sg p) := by
+theorem execIncrDecr_pres (S : SpecCore I) (sg : Int) (p : JVal) : Pres I (execIncrDecr sg p) := by
   have L := S.toLeaf
   unfold execIncrDecr; pres
 @[aesop safe apply (rule_sets := [Pres])]
-theorem execReload_pres (S : Spec I) (p : JVal) : Pres I (execReload p) := by
+theorem execReload_pres (S : SpecCore I) (p : JVal) : Pres I (execReload p) := by
   have L := S.toLeaf
   unfold execReload; pres
 @[aesop safe apply (rule_sets := [Pres])]
-theorem execSet_pres (S : Spec I) (p : JVal) : Pres I (execSet p) := by
+theorem execSet_pres (S : SpecCore I) (p : JVal) : Pres I (execSet p) := by
   have L := S.toLeaf
   unfold execSet; pres
 @[aesop safe apply (rule_sets := [Pres])]
-theorem execKill_pres (S : Spec I) (p : JVal) : Pres I (execKill p) := by
+theorem execKill_pres (S : SpecCore I) (p : JVal) : Pres I (execKill p) := by
   have L := S.toLeaf
   unfold execKill; pres
 @[aesop safe apply (rule_sets := [Pres])]
-theorem execSignal_pres (S : Spec I) (p : JVal) : Pres I (execSignal p) := by
+theorem execSignal_pres (S : SpecCore I) (p : JVal) : Pres I (execSignal p) := by
   have L := S.toLeaf
   unfold execSignal; pres
 @[aesop safe apply (rule_sets := [Pres])]
-theorem execRm_pres (S : Spec I) (p : JVal) : Pres I (execRm p) := by
+theorem execRm_pres (S : SpecCore I) (p : JVal) : Pres I (execRm p) := by
   have L := S.toLeaf
   unfold execRm; pres
 @[aesop safe apply (rule_sets := [Pres])]
-theorem execAdd_pres (S : Spec I) (p : JVal) : Pres I (execAdd p) := by
+theorem execAdd_pres (S : SpecCore I) (p : JVal) : Pres I (execAdd p) := by
   have L := S.toLeaf
   unfold execAdd; pres
 @[aesop safe apply (rule_sets := [Pres])]
-theorem execReadOnly_pres (S : Spec I) (c : String) (p : JVal) : Pres I (execReadOnly c p) := by
+theorem execReadOnly_pres (S : SpecCore I) (c : String) (p : JVal) : Pres I (execReadOnly c p) := by
   have L := S.toLeaf
   unfold execReadOnly; pres
 @[aesop safe apply (rule_sets := [Pres])]
-theorem validateExecute_pres (S : Spec I) (c : String) (p : JVal) : Pres I (validateExecute c p) := by
+theorem validateExecute_pres (S : SpecCore I) (c : String) (p : JVal) : Pres I (validateExecute c p) := by
   have L := S.toLeaf
   unfold validateExecute; pres
 @[aesop safe apply (rule_sets := [Pres])]
@@ -417,15 +424,20 @@ theorem handleMessage_pres (S : Spec I) (cid : Option String) (msg : Option JVal
   have L := S.toLeaf
   have hadd : ∀ tid a b c d e f, Pres I (addDoneCallback tid (TopCb.reply a b c d e f)) :=
     fun tid a b c d e f => S.addDone _ _ (by simp)
+  have hrep := S.emitRep
+  have hve := validateExecute_pres S.toSpecCore
   unfold handleMessage
-  aesop (add safe apply hadd) (rule_sets := [Pres]) (config := { terminal := true, useDefaultSimpSet := false, useSimpAll := false, maxRuleApplications := 3000 })
+  aesop (add safe apply hadd, safe apply hrep, safe apply hve) (rule_sets := [Pres]) (config := { terminal := true, useDefaultSimpSet := false, useSimpAll := false, maxRuleApplications := 3000 })
 @[aesop safe apply (rule_sets := [Pres])]
 theorem sigQuit_pres (S : Spec I) : Pres I sigQuit := by
   have L := S.toLeaf
-  unfold sigQuit; pres
+  have h := handleMessage_pres S
+  unfold sigQuit
+  aesop (add safe apply h) (rule_sets := [Pres])
+    (config := { terminal := true, useDefaultSimpSet := false, useSimpAll := false, maxRuleApplications := 3000 })
 theorem settle_pres (S : Spec I) (n : Nat) : Pres I (settle n) := by
   have L := S.toLeaf
-  have hs := S.settleStep (exec_pres S) (sigQuit_pres S)
+  have hs := S.settleStep (exec_pres S.toSpecCore) (sigQuit_pres S)
   induction n with
   | zero => unfold settle; pres
   | succ n ih =>
@@ -434,9 +446,12 @@ theorem settle_pres (S : Spec I) (n : Nat) : Pres I (settle n) := by
 theorem stepOp_pres (S : Spec I) (op : Op) : Pres I (stepOp op) := by
   have L := S.toLeaf
   have hadd : ∀ tid, Pres I (addDoneCallback tid TopCb.watch) := fun tid => S.addDone _ _ (by simp)
-  have he := exec_pres S
+  have he := exec_pres S.toSpecCore
+  have hh := handleMessage_pres S
+  have hq := sigQuit_pres S
+  have hsc := syncCoroutine_pres S.toSpecCore
   cases op <;> simp only [stepOp] <;>
-  aesop (add safe apply hadd, safe apply he) (rule_sets := [Pres])
+  aesop (add safe apply hadd, safe apply he, safe apply hh, safe apply hq, safe apply hsc) (rule_sets := [Pres])
     (config := { terminal := true, useDefaultSimpSet := false, useSimpAll := false, maxRuleApplications := 3000 })
 theorem stepTail_pres (S : Spec I) : Pres I stepTail := by
   have L := S.toLeaf
